@@ -157,7 +157,7 @@ var (
 
 func digest(canon string) string {
 	h := sha1.Sum([]byte(canon))
-	d := hex.EncodeToString(h[:5])
+	d := hex.EncodeToString(h[:8]) // 64 bits: millions of distinct contexts per run, 40 bits collided in the dictionary
 	dictMu.Lock()
 	ctxDict[d] = canon
 	dictMu.Unlock()
